@@ -5,4 +5,5 @@ Extraction "C19_m.ml" workload range lists_equal combine_lists flatten_list list
   sub_list transpose_lists linear_space log_space closest_location arithmetic_mean variance
   standard_deviation median weighted_average
   range1 range2 lists_equal2 transpose_lists2 median_twice weighted_average_default
-  scale_data shift_data rotate_data scale_values scale_weights shift_values stat_history session Z.of_nat Z.to_nat.
+  scale_data shift_data rotate_data scale_values scale_weights shift_values stat_history session
+  datapoint datapoint1 datapoint0 dp_lt dp_gt dp_eq Z.of_nat Z.to_nat.
